@@ -1,6 +1,7 @@
 import Lean.Elab.Tactic
 import FancyModel.GeneratedAnalyze
 import FancyModel.Model.Compile
+import FancyModel.GeneratedToStr
 /-!
 # Hand-written prelude of the generated compiler (`GeneratedCompile.lean`)
 
@@ -53,6 +54,25 @@ def to_str_push (re : List Expr) (e : Expr) : List Expr := re ++ [e]
 
 /-- `compile_inner(&self.re, options)`: regex-automata compiles the text; assumed to succeed -/
 def compile_inner (re : List Expr) : Except CErr (List Expr) := .ok re
+
+/-! ## the text reading of `DelegateBuilder` (second translation of the same functions: `re : String` is a `List Char`) -/
+
+/-- the two instructions `compile_delegate(s)` emit, with the text they carry: `Insn::Lit(val)` and
+    `Insn::Delegate { pattern, start_group, end_group, .. }` (`inner` is regex-automata's compilation of `pattern`) -/
+inductive TInsn where
+  | lit (s : List Char)
+  | delegate (pattern : List Char) (startGroup endGroup : Nat)
+deriving DecidableEq, Repr, Inhabited
+
+/-- `info.expr.to_str(&mut self.re, 1)`: the translated `Expr::to_str` (GeneratedToStr.lean) appends to the buffer;
+    `none` is its `panic!("attempting to format hard expr")` -/
+def to_str_text (e : Expr) (buf : List Char) (precedence : Nat) : Except CErr (List Char) :=
+  match Fancy.GenToStr.genToStr e buf precedence with
+  | none => .error (.panic "attempting to format hard expr")
+  | some s => .ok s
+
+/-- `compile_inner(&self.re, options)` in the text reading: regex-automata accepts the text (assumed) -/
+def compile_inner_text (re : List Char) : Except CErr (List Char) := .ok re
 
 /-! ## size facts for the termination proofs -/
 
